@@ -643,6 +643,9 @@ def install(R):
             return NdArr.from_fn("isnan", a.shape, "bool", lambda *i: fs.isnan(*i))
         if a is NaN:
             return True
+        from .values import NanReal
+        if isinstance(a, NanReal):
+            return a.isnan if not isinstance(a.isnan, bool) else a.isnan
         if is_num_like(a):
             return False
         raise Unsupported("isnan(%r)" % (a,))
